@@ -94,7 +94,7 @@ def run(gen, gen_path, externs, extra_flags=(), timeout=1500, verify_fn=None, ex
     os.makedirs(os.path.dirname(gen_path), exist_ok=True)
     open(gen_path, 'w').write(gen.text)
     cmd = ['verus', gen_path, '--crate-name', 'unit'] + extern_flags(externs, deps) + [
-        '--output-json', '--time-expanded', '--error-format=json', '--multiple-errors', '2']
+        '--output-json', '--time-expanded', '--error-format=json', '--multiple-errors', '12']
     if rlimit:
         cmd += ['--rlimit', str(rlimit)]
     if expand:
